@@ -516,7 +516,7 @@ class StmtMixin:
         """execute the body once on a havocked copy to learn which heap arrays / references it writes"""
         mark = next(_ctr)
         H = E.copy()
-        for n in names:
+        for n in sorted(names):
             if n in H.locals:
                 H.locals[n] = self.havoc_like(n, H.locals[n], H)
         H.writes = {}
@@ -529,7 +529,7 @@ class StmtMixin:
         # types of locals first assigned inside the loop
         newtypes = {}
         for o in outs:
-            for n in names:
+            for n in sorted(names):
                 if n in o.locals and n not in E.locals:
                     newtypes.setdefault(n, o.locals[n])
         plan = {}
@@ -540,12 +540,8 @@ class StmtMixin:
                 return nm[3:]
             return nm.rsplit("!", 1)[0] if "!" in nm else nm
 
-        def classify(r):
-            """'stable' | 'local' (allocated inside the iteration) | 'varying'"""
-            if z3.is_const(r) and r.decl().kind() == z3.Z3_OP_UNINTERPRETED and r.decl().name().startswith("ref!"):
-                nm = r.decl().name()
-                return "local" if int(nm.rsplit("!", 1)[1]) >= mark else "stable"
-            todo = [r]
+        def mentions_fresh(x0):
+            todo = [x0]
             seen = set()
             while todo:
                 x = todo.pop()
@@ -556,15 +552,37 @@ class StmtMixin:
                     nm = x.decl().name()
                     if z3.is_array(x):
                         if arr_base(nm) in written:
-                            return "varying"
+                            return True
                     else:
                         num = int(nm.rsplit("!", 1)[1]) if "!" in nm and nm.rsplit("!", 1)[1].isdigit() else -1
                         if num >= mark:
-                            return "varying"
+                            return True
                 elif z3.is_var(x) or z3.is_quantifier(x):
-                    return "varying"
+                    return True
                 todo.extend(x.children())
-            return "stable"
+            return False
+
+        def classify(r):
+            """'stable' | 'local' (allocated inside the iteration) | ('member', list ref, elem array name) | 'varying'"""
+            if z3.is_const(r) and r.decl().kind() == z3.Z3_OP_UNINTERPRETED and r.decl().name().startswith("ref!"):
+                nm = r.decl().name()
+                return "local" if int(nm.rsplit("!", 1)[1]) >= mark else "stable"
+            if not mentions_fresh(r):
+                return "stable"
+            # element of a list that is itself stable: select(select(L.<tag>.elem, listref), index)
+            if z3.is_app(r) and r.decl().kind() == z3.Z3_OP_SELECT:
+                inner = r.arg(0)
+                if z3.is_app(inner) and inner.decl().kind() == z3.Z3_OP_SELECT:
+                    base, lref = inner.arg(0), inner.arg(1)
+                    b = base
+                    while z3.is_app(b) and b.decl().kind() == z3.Z3_OP_STORE:
+                        b = b.arg(0)
+                    if z3.is_const(b):
+                        nm = arr_base(b.decl().name())
+                        if nm.startswith("L.") and nm.endswith(".elem") and nm not in written and not mentions_fresh(lref) \
+                                and nm[:-5] + ".len" not in written:
+                            return ("member", lref, nm)
+            return "varying"
 
         for name, refs in w.items():
             if refs == "ALL":
@@ -576,6 +594,9 @@ class StmtMixin:
                 c = classify(r)
                 if c == "stable":
                     stable.append(r)
+                elif isinstance(c, tuple):
+                    if not any(isinstance(x, tuple) and z3.eq(x[1], c[1]) and x[2] == c[2] for x in stable):
+                        stable.append(c)
                 elif c == "varying":
                     allp = True
             plan[name] = "ALL" if allp else stable
@@ -590,13 +611,29 @@ class StmtMixin:
             new = z3.Const(fresh_name(name), old.sort())
             L.heap[name] = new
             if what != "ALL":
-                cond = z3.And(0 <= r, r < E.alloc, *[r != s for s in what])
-                L.assume(z3.ForAll([r], z3.Implies(cond, new[r] == old[r])))
+                conds = [0 <= r, r < E.alloc]
+                for s_ in what:
+                    if isinstance(s_, tuple):
+                        # any element of a (stable) list may be written: everything outside the list is framed
+                        _, lref, enm = s_
+                        earr = E.heap.get(enm, self._heap0.get(enm))
+                        larr = E.heap.get(enm[:-5] + ".len", self._heap0.get(enm[:-5] + ".len"))
+                        if earr is None or larr is None:
+                            conds = None
+                            break
+                        es = earr.sort().range().range()
+                        MEM = self.uf("MEM_" + str(es), [I, z3.ArraySort(I, es)], z3.ArraySort(es, B))
+                        self.mem_facts(larr[lref], earr[lref], es)
+                        conds.append(z3.Not(MEM(larr[lref], earr[lref])[r]))
+                    else:
+                        conds.append(r != s_)
+                if conds is not None:
+                    L.assume(z3.ForAll([r], z3.Implies(z3.And(*conds), new[r] == old[r]), patterns=[new[r]]))
             self.canon_assume(name, new, L)
 
     def loop_head(self, E, names, plan, newtypes):
         L = E.copy()
-        for n in names:
+        for n in sorted(names):
             if n in L.locals:
                 L.locals[n] = self.havoc_like(n, L.locals[n], L)
         self.havoc_heap(plan, E, L)
